@@ -24,9 +24,11 @@ package object
 //@   pureeffect
 //@   ensures result == false ==> nodeNotInMaintenance()
 
+// (The extended-ACL evaluation is in the guarded set too: for tables with object filters it
+// reads object headers from the local storage or from other nodes.)
 //@ callrule no_client_operation_in_maintenance in implements:object.ObjectServiceServer, (*Server).HeadBuffered, (*Server).SearchV2Buffered, !(*Server).Replicate
 //@   property C45
-//@   callee (object.Handlers).{Get,Head,Delete,GetRange}, (object.Storage).*, (object.ClientConstructor).*, object.forward*, (*object.Server).forwardSearchRequest, (*object.Server).ProcessSearch, (*object.Server).processSearchRequest, (*object.Server).searchOnRemoteNode, (*put.Streamer).*, (*object.putStream).*, (*engine.StorageEngine).*, (*meta.Meta).*
+//@   callee (acl.ACLChecker).CheckEACL, (object.Handlers).{Get,Head,Delete,GetRange}, (object.Storage).*, (object.ClientConstructor).*, object.forward*, (*object.Server).forwardSearchRequest, (*object.Server).ProcessSearch, (*object.Server).processSearchRequest, (*object.Server).searchOnRemoteNode, (*put.Streamer).*, (*object.putStream).*, (*engine.StorageEngine).*, (*meta.Meta).*
 //@   requires [node_not_in_maintenance] nodeNotInMaintenance()
 
 // ---- C29: every client handler verifies the request signatures, validates its tokens
